@@ -225,7 +225,7 @@ func noFunctionForm(src string) string {
 }
 
 func progOpts() proggen.Opts {
-	return proggen.Opts{MaxDepth: 5, MarkOdds: 3, NoValuesInInit: true, NoLambdaCall: true}
+	return proggen.Opts{MaxDepth: 5, MarkOdds: 3, NoValuesInInit: true}
 }
 
 // tagDocRefill: open finding C19-F2, the doc layout passes a documentation string through the documentation formatter.
